@@ -834,6 +834,17 @@ def handleSpec (name : String) (ins ans : List String) : String :=
             | _ => s!"FAIL the clean transmission after the hostile prefix produced {soms.length} StartOfMessage with its text (receiver left deaf or confused)"
         | _, _, _ => "FAIL unparsable"
       | _, _ => "FAIL unparsable"
+    | "c07" =>
+      match unhex arg, parseSigEvs ans with
+      | some payload, some evs =>
+        let bursts := evs.filterMap (fun e => match e with | .link _ 'B' b => some b | _ => none)
+        match bursts with
+        | [b] =>
+          if b.take payload.length != payload then "FAIL the burst does not start at the first byte after the preamble with the transmitted bytes in order"
+          else if b.length > payload.length + 8 then s!"FAIL the burst runs {b.length - payload.length} bytes past the end of the data"
+          else "ok"
+        | bs => s!"FAIL one transmission produced {bs.length} bursts (expected exactly one)"
+      | _, _ => "FAIL unparsable"
     | "c09" =>
       match arg.toNat?, parseSigEvs ans with
       | some rate, some evs => optVerdict (Spec.oracleSigC09 rate evs)
